@@ -52,11 +52,18 @@ def unit_set(rnd):
     units = [(st, rnd.choice(TYPES)) for st in stems]
     names = [st + '.' + ty for st, ty in units]
 
-    def ref(ext, missing=0.15):
+    FALLBACK = {'image': 'localhost/i', 'build': 'localhost/b', 'network': 'mynet', 'container': 'host', 'volume': 'named', 'pod': ''}
+
+    def ref(ext, missing=0.06):
+        """a reference to a unit of the set with that extension; when there is none, mostly a plain (non-reference) value,
+        so that most units still convert — dangling references are a small, deliberate share"""
         c = [x for x in names if x.endswith('.' + ext)]
-        if c and rnd.random() > missing:
+        r = rnd.random()
+        if r < missing:
+            return 'missing.' + ext
+        if c:
             return rnd.choice(c)
-        return 'missing.' + ext
+        return FALLBACK[ext] if r < 0.9 else 'missing.' + ext
     files = {}
 
     def named(k, v, allow_empty=True):
